@@ -26,6 +26,9 @@ CHECKS["C07"] = dict(cat="exploration", tech="metamorphic testing: lexer-driven 
 CHECKS["C10"] = dict(cat="exploration", tech="structure-aware mutation fuzzing (Hypothesis) with exception-type oracle and call-site bucketing; silent-mode differential",
     text="Mutated corpus statements (token delete/duplicate/swap/insert of SQL, quoting and templating metacharacters, cross-over, truncation, bracket nesting) under all 29 dialects must end in a result or a library exception; parser-rejected single statements must be InvalidSyntaxException; silent mode must equal the script without the unsupported statement and warn. Sampled; biased to near-valid SQL.",
     ref="DESIGN.md section 4 C10")
+CHECKS["C11"] = dict(cat="exploration", tech="differential across fresh interpreter processes with different PYTHONHASHSEED + permuted/repeated accessor calls; corpus and Hypothesis-generated set-heavy scripts",
+    text="Every corpus case (with its dialect and metadata), TPC-DS script and generated set-heavy script is dumped canonically in separate interpreters under 4 (quick) / 32 (thorough) hash seeds and under permuted, repeated accessor orders; all dumps must be identical (anonymous subquery names canonicalised, exports compared as sets). Sampled inputs; the hash-seed dimension is sampled too.",
+    ref="DESIGN.md section 4 C11")
 NA = {}
 def main():
     props = [json.loads(l)["id"] for l in open(os.path.join(HOME, "properties.jsonl"))]
